@@ -1,5 +1,6 @@
 import SqlgrepModel.Spec.JsonGrammar
 import SqlgrepModel.Lemmas.PrintGrammar
+import SqlgrepModel.Lemmas.JsonParser
 import SqlgrepModel.Lemmas.Utf8Valid
 import SqlgrepModel.Props.C17
 /-
@@ -11,6 +12,9 @@ RFC 8259 itself.
 (`JsonGrammar.Val`, `.Obj`, `.Arr`, `.Str`, `.Num`, `.Ws`, ...; written from the RFC, importing nothing of
 the model) together with the denotation of a text (`ValD`, `ObjD`, `StrD`, `NumD`: the same rules, each
 carrying the JSON value it stands for — strings by the escape table of §7, numbers as `mant × 10^exp`).
+The grammar is unambiguous: a text has at most one denotation (`json_denotation_unique`, proved through an
+executable parser that is complete for the denotation, `Lemmas/JsonParser.lean`), so "the denotation of the
+printed line" is a function of the line and any reader that implements the RFC reads exactly it.
 "Valid JSON object" in this file means `JsonGrammar.Obj`, and "values recover the row" means the
 denotation `JsonGrammar.ObjD`; neither `readObject` nor `jsonUnescape` (the readers of
 `Lemmas/PrintJson.lean` / `PrintString.lean` used by `Props/C17.lean`) occurs in any statement below.
@@ -41,6 +45,18 @@ theorem denotation_refines_grammar :
 /-- an `object` is a `value`, and a `value` without surrounding whitespace is a `JSON-text` (§2) -/
 theorem object_is_json_text (cs : List Char) (h : Obj cs) : JsonText cs :=
   ⟨[], cs, [], ws_nil, .object h, ws_nil, by simp⟩
+
+/-- **The grammar is unambiguous.** A text denotes at most one JSON value, an object text has exactly one
+member list, a string text one character sequence; and `parseJson` (an executable parser,
+`Lemmas/JsonParser.lean`) computes that denotation for every text that has one, also with whitespace
+around the value (`JSON-text = ws value ws`). So `parseJson cs = none` refutes `∃ x, ValD cs x`. -/
+theorem json_denotation_unique :
+    (∀ cs x x', ValD cs x → ValD cs x' → x = x')
+    ∧ (∀ cs ms ms', ObjD cs ms → ObjD cs ms' → ms = ms')
+    ∧ (∀ cs s s', StrD cs s → StrD cs s' → s = s')
+    ∧ (∀ a v b x, Ws a → ValD v x → Ws b → parseJson (a ++ v ++ b) = some x) :=
+  ⟨fun _ _ _ h h' => h.unique h', fun _ _ _ h h' => h.unique h', fun _ _ _ h h' => h.unique h',
+   fun _ _ _ _ ha hv hb => parseJson_complete_text ha hv hb⟩
 
 /-- `numValue` / `isJsonNumber` (the executable check assumed of the REAL texts) is exact for §6:
 it computes `d` iff the grammar says the text is a `number` denoting `d`. In particular a `number` has
@@ -120,7 +136,8 @@ of that text has as members, in document order, exactly the column names (`names
 non-finite REAL → `null`, TEXT → the string of exactly its characters, arrays → arrays element by element,
 TIMESTAMP / INTERVAL → the string of their text form. This is `json_record_recovers_row` of `Props/C17.lean`
 with the RFC grammar in the place of `readObject` and the RFC string / number denotation in the place of
-`jsonUnescape` / `parseInt`, and with REAL cells included. -/
+`jsonUnescape` / `parseInt`, and with REAL cells included. The member list is THE denotation of the line
+(any other derivation denotes the same members), and it is what the parser `parseJson` returns. -/
 theorem json_record_denotes_row (o : RealOracle) (ho : RealTextOk o) (cols : List Bytes) (row : List Value)
     (hd : cols.Nodup) (hl : cols.length = row.length)
     (hcols : ∀ c ∈ cols, IsUtf8 c) (htexts : ∀ v ∈ row, ∀ s ∈ allTexts v, IsUtf8 s) :
@@ -128,9 +145,10 @@ theorem json_record_denotes_row (o : RealOracle) (ho : RealTextOk o) (cols : Lis
       encode line = renderRecord o .json cols row
       ∧ Obj line ∧ ObjD line (names.zip xs)
       ∧ names.map encode = cols ∧ names.length = xs.length
-      ∧ AllRel (CellDoc o) row xs := by
+      ∧ AllRel (CellDoc o) row xs
+      ∧ (∀ ms', ObjD line ms' → ms' = names.zip xs) ∧ parseJson line = some (.obj (names.zip xs)) := by
   obtain ⟨line, names, xs, h1, h2, h3, h4⟩ := record_denotes_row o ho cols row hd hl hcols htexts
-  refine ⟨line, names, xs, h1, h2.obj, h2, h3, ?_, h4⟩
+  refine ⟨line, names, xs, h1, h2.obj, h2, h3, ?_, h4, fun ms' h' => h'.unique h2, parseJson_complete (.object h2)⟩
   rw [← h4.length_eq, ← hl, ← h3, List.length_map]
 
 /-- ... and for a REAL-free row the denoted members determine the row: reading every member value back
@@ -145,7 +163,7 @@ theorem json_record_recovers_row_rfc (o : RealOracle) (ho : RealTextOk o) (cols 
       encode line = renderRecord o .json cols row ∧ Obj line ∧ ObjD line ms
       ∧ ms.map (fun m => encode m.1) = cols
       ∧ ms.map (fun m => cellOfJVal m.2) = row.map (fun v => some (jsonMeaning v)) := by
-  obtain ⟨line, names, xs, h1, h2, h3, h4, h5, h6⟩ := json_record_denotes_row o ho cols row hd hl hcols htexts
+  obtain ⟨line, names, xs, h1, h2, h3, h4, h5, h6, _, _⟩ := json_record_denotes_row o ho cols row hd hl hcols htexts
   refine ⟨line, names.zip xs, h1, h2, h3, ?_, ?_⟩
   · have : (names.zip xs).map (fun m => encode m.1) = (names.zip xs).unzip.1.map encode := by
       simp [List.unzip_eq_map, List.map_map]
@@ -229,6 +247,24 @@ def row1 : List Value :=
 example : renderRecord o1 .json cols1 row1
     = encode ("{\"k\\\"\":\"a\\\"b\\\\c\\n\\u0001😀\",\"n\":null,\"xs\":[[],[true,null],\"\"]}".toList) := by
   decide
+
+-- the denotation of that very line, computed by the (complete) parser: the names and the cells' values
+example : parseJson "{\"k\\\"\":\"a\\\"b\\\\c\\n\\u0001😀\",\"n\":null,\"xs\":[[],[true,null],\"\"]}".toList
+    = some (.obj [(['k', '"'], .str awkward), (['n'], .null),
+        (['x', 's'], .arr [.arr [], .arr [.bool true, .null], .str []])]) := by decide +kernel
+
+-- the grammar on texts the printer never writes: whitespace everywhere, exponents, `\/`, a surrogate pair ...
+example : parseJson " { \"a\" : [ 1 , -2.50e+1 , true ] ,\t\"\\/\\uD83D\\uDE00\" : { } }\n".toList
+    = some (.obj [(['a'], .arr [.num ⟨1, 0⟩, .num ⟨-250, -1⟩, .bool true]), (['/', '😀'], .obj [])]) := by
+  decide +kernel
+-- ... and on texts that are not JSON: none of these has a denotation (`no_denotation_of_parse_none`)
+example : parseJson "{\"a\":1,}".toList = none ∧ parseJson "{\"a\" 1}".toList = none
+    ∧ parseJson "{a:1}".toList = none ∧ parseJson "[1 2]".toList = none ∧ parseJson "[1,]".toList = none
+    ∧ parseJson "01".toList = none ∧ parseJson "\"a\nb\"".toList = none ∧ parseJson "\"\\x\"".toList = none
+    ∧ parseJson "\"\\uD83D\"".toList = none ∧ parseJson "{\"a\":1}}".toList = none
+    ∧ parseJson "'a'".toList = none ∧ parseJson "NaN".toList = none ∧ parseJson "".toList = none := by
+  decide +kernel
+example : ¬ ∃ x, ValD "{\"a\":1,}".toList x := no_denotation_of_parse_none (by decide +kernel)
 
 -- the hypotheses of `json_record_denotes_row` / `json_record_recovers_row_rfc` hold of it
 example : cols1.Nodup ∧ cols1.length = row1.length ∧ (∀ v ∈ row1, noReal v = true) := by decide
